@@ -511,6 +511,26 @@ pub fn c04(rec: &mut Rec, lm: &Landmarks, rng: &mut Rng, thorough: bool) {
             }
         }
     }
+    // mirror pairs: e at +x of its scale's zero, f the instant at -x of that same zero but held in another scale (and
+    // the other way round): the difference is 2x - two elapsed times that are negatives of each other are not one instant
+    for (i, &a) in EXACT.iter().enumerate() {
+        for (j, &b) in EXACT.iter().enumerate() {
+            if a == b {
+                continue;
+            }
+            for (k, x) in [1i128, 900 * NS_S as i128, 7305 * NS_DAY as i128, NPC as i128 / 2 - 1, NPC as i128 - 1, 3 * NPC as i128 / 2].iter().enumerate() {
+                if !thorough && (i + j + k) % 2 == 1 {
+                    continue;
+                }
+                let plus = Epoch::from_duration(ns_dur(*x), a);
+                let minus = Epoch::from_duration(ns_dur(-*x), a);
+                let (e, f) = if (i + k) % 2 == 0 { (plus, safe_epoch(|| minus.to_time_scale(b))) } else { (minus, safe_epoch(|| plus.to_time_scale(b))) };
+                m.eload_dur(e.time_scale, e.duration);
+                m.sub_e(f);
+                m.cmp(f);
+            }
+        }
+    }
     // random chains, same-scale differences, e + (f - e) = f
     let n = if thorough { 120_000 } else { 5_000 };
     for _ in 0..n {
@@ -571,6 +591,16 @@ pub fn c04(rec: &mut Rec, lm: &Landmarks, rng: &mut Rng, thorough: bool) {
 pub fn c05(rec: &mut Rec, lm: &Landmarks, rng: &mut Rng, thorough: bool) {
     let g = EpGen::new(lm, false);
     let mut m = EM::new(rec);
+    // epochs built by the nanosecond-counter constructors of the GNSS scales (counts below and beyond one century of
+    // elapsed time), converted to every uniform scale and back
+    for (i, ts) in [TimeScale::GPST, TimeScale::QZSST, TimeScale::GST, TimeScale::BDT].into_iter().enumerate() {
+        for (k, n) in [0u64, 1, NPC as u64 - 1, NPC as u64, NPC as u64 + 1, 2 * NPC as u64 + 17, 4_000_000_000_000_000_000, u64::MAX].into_iter().enumerate() {
+            m.from_ns(ts, n);
+            let b = UNIFORM[(i + k) % UNIFORM.len()];
+            m.to_scale(b);
+            m.to_scale(ts);
+        }
+    }
     // every landmark elapsed time in every uniform scale to every uniform scale and back
     for a in UNIFORM {
         for b in UNIFORM {
